@@ -9,7 +9,7 @@ from ..absint import Evaluator, Unsupported
 from ..flow import show, walk_term
 from ..model import fold_const
 from ..report import ob_ok, ob_fail, ob_undecided
-from .common import is_call, method_call, edge_attr, need, strip_wrappers, strip_not, if_arms
+from .common import is_call, method_call, edge_attr, need, strip_wrappers, strip_not, if_arms, aug_like
 from . import tables
 
 MAX_PATHS = 20000
@@ -98,9 +98,10 @@ class Walker:
         if isinstance(st, (ast.Continue, ast.Break, ast.Return, ast.Raise)):
             self.paths.append((atoms, word, env))
             return
-        if isinstance(st, ast.AugAssign) and isinstance(st.target, ast.Name) and st.target.id in self.extra_accs and isinstance(st.op, ast.Add):
-            toks = self.classify(st.value, env)
-            word = word + [("DEFER", st.target.id, len(toks))] + toks
+        al = aug_like(st) if isinstance(st, (ast.AugAssign, ast.Assign)) else None
+        if al and al[0] in self.extra_accs and al[1] is ast.Add:
+            toks = self.classify(al[2], env)
+            word = word + [("DEFER", al[0], len(toks))] + toks
             self._block(rest, atoms, env, word, cont)
             return
         if isinstance(st, ast.Assign) and len(st.targets) == 1 and isinstance(st.targets[0], ast.Name) and st.targets[0].id in self.extra_accs:
@@ -513,8 +514,8 @@ def emit_write_graph(repo, tier="quick"):
         idx = [i for i, x in enumerate(parent_body) if x is rl][0]
         inits = {st.targets[0].id for st in parent_body[:idx] if isinstance(st, ast.Assign) and isinstance(st.targets[0], ast.Name)
                  and isinstance(st.value, ast.Constant) and st.value.value == ""}
-        after = {st.value.id for st in parent_body[idx + 1:] if isinstance(st, ast.AugAssign) and isinstance(st.target, ast.Name) and st.target.id == acc
-                 and isinstance(st.op, ast.Add) and isinstance(st.value, ast.Name)}
+        after = {aug_like(st)[2].id for st in parent_body[idx + 1:] if isinstance(st, (ast.AugAssign, ast.Assign)) and aug_like(st) and aug_like(st)[0] == acc
+                 and aug_like(st)[1] is ast.Add and isinstance(aug_like(st)[2], ast.Name)}
         deferred = inits & after
     # ring unit
     rfails = {}
